@@ -3,7 +3,8 @@ import Driver.Util
 /-! Driver mode `alloc` (properties C12, C05, C13): stateful line protocol executing `RootSim.Alloc.step`.
 
 ops (first token):
-* `cfg T B perArena base`                 — (re)initialise: `model_allocator_lp_init`
+* `cfg T B perArena base [chk]`           — (re)initialise: `model_allocator_lp_init`; `chk` = 1 iff the tree under
+                                             test has the overflow-checked `rs_calloc` (detected by the harness), default 0
 * `malloc n ins seed`                     — `rs_malloc(n)`, then the whole block is filled with `pat seed`
 * `calloc nmemb size ins seed`            — `rs_calloc`, bytes beyond `nmemb*size` filled with `pat seed`
 * `realloc a o n ins seed`                — `rs_realloc(p, n)`, `p` = block at offset `o` of arena ordinal `a`
@@ -16,7 +17,7 @@ namespace Driver
 open RootSim.Alloc
 
 structure AllocSt where
-  c : Cfg := ⟨16, 6, 0, 0, fun _ _ => 0⟩
+  c : Cfg := ⟨16, 6, 0, 0, fun _ _ => 0, false⟩
   s : MM := ⟨[], [], 0, 0⟩
 
 def fnvStep (h : UInt64) (b : Nat) : UInt64 := (h ^^^ b.toUInt64) * 1099511628211
@@ -70,8 +71,8 @@ def doStep (st : AllocSt) (op : Op) (post : MM → Ret → Option Op) (extra : M
 def refsStr (s : MM) : String := ",".intercalate (s.logs.map fun l => toString l.1)
 
 def allocStep (st : AllocSt) : List String → AllocSt × String
-  | ["cfg", t, b, pa, ba] =>
-    let c : Cfg := ⟨nat! t, nat! b, nat! pa, nat! ba, fun _ _ => 0⟩
+  | "cfg" :: t :: b :: pa :: ba :: rest =>
+    let c : Cfg := ⟨nat! t, nat! b, nat! pa, nat! ba, fun _ _ => 0, rest == ["1"]⟩
     let s := MM.init c
     ({ c := c, s := s }, "ok" ++ tail c s)
   | ["malloc", n, ins, seed] =>
@@ -81,7 +82,7 @@ def allocStep (st : AllocSt) : List String → AllocSt × String
   | ["calloc", nm, sz, ins, seed] =>
     doStep st (.calloc (nat! nm) (nat! sz) (nat! ins)) fun s1 r => match r with
       | .ptr p => (s1.blockAt st.c p).map fun k =>
-          let tot := (nat! nm * nat! sz) % 2 ^ 64
+          let tot := (nat! nm * nat! sz) % 2 ^ 64   -- a pointer is returned only if the product is what C computed
           .write p tot (patBytes (nat! seed) tot (2 ^ k))
       | _ => none
   | "realloc" :: rest =>
